@@ -787,22 +787,29 @@ def opaque_fn(name, *args):
     return Sc(_opaque_decls[key](*flat))
 
 
-def sym_float(x=0.0):
-    """Replacement of the builtin `float` in patched modules."""
-    if isinstance(x, Sc):
-        if not x.isreal():
-            raise Unsupported("float() of a complex symbolic scalar")
-        return x
-    from .arr import SA
-
-    if isinstance(x, SA):
-        if x.data.size != 1:
-            raise TypeError("only size-1 arrays can be converted to Python scalars")
-        return sym_float(x.data.ravel()[0])
-    return float(x)
+class _SymFloatMeta(type):
+    def __instancecheck__(cls, x):
+        return isinstance(x, float) or (isinstance(x, Sc) and x.isreal())
 
 
-sym_float._is_sym_float = True
+class sym_float(metaclass=_SymFloatMeta):
+    """Replacement of the builtin `float` in patched modules: conversion keeps symbolic reals,
+    `isinstance(x, float)` accepts them, and it is accepted where code passes `dtype=float`."""
+
+    _is_sym_float = True
+
+    def __new__(cls, x=0.0):
+        if isinstance(x, Sc):
+            if not x.isreal():
+                raise Unsupported("float() of a complex symbolic scalar")
+            return x
+        from .arr import SA
+
+        if isinstance(x, SA):
+            if x.data.size != 1:
+                raise TypeError("only size-1 arrays can be converted to Python scalars")
+            return sym_float(x.data.ravel()[0])
+        return float(x)
 
 
 def sym_complex(x=0.0, y=None):
